@@ -59,9 +59,10 @@ func (d *uriDecoder) readLine(data string, commonHeader http.Header) (DecodedAmm
 		return nil, err
 	}
 	header := commonHeader.Clone()
+	// Headers from ammo file have priority over headers from config.
 	for k, vv := range d.decodedConfigHeaders {
-		for _, v := range vv {
-			header.Set(k, v)
+		if _, ok := header[k]; !ok {
+			header[k] = append([]string(nil), vv...)
 		}
 	}
 	a := d.pool.Get().(*ammo.Ammo)
